@@ -17,6 +17,7 @@ import NrDaemon.Driver.Pid
 import NrDaemon.Driver.Watch
 import NrDaemon.Driver.Rules
 import NrDaemon.Driver.AppKey
+import NrDaemon.Driver.Wire
 /-!
   Op-line driver (core Lean only; built as a `lean_exe`).
 
@@ -53,9 +54,10 @@ def dispatch (st : DState) (line : String) (impl : Option String) : DState × St
   | some "flags" => (st, flagsStep t impl)
   | some "argv" => (st, argvStep t impl)
   | some "redact" => (st, redactStep t impl)
-  | some "rules" => (st, rulesStep t impl)
+  | some "rules" => (st, rulesStepAll t impl)
   | some "appkey" => (st, appkeyStep t impl)
   | some "client" => (st, clientStep t impl)
+  | some "wire" => (st, wireStep t impl)
   | some "watch" => let (c, o) := watchStep st.watch t impl; ({ st with watch := c }, o)
   | some "pid" => let (c, o) := pidStep st.pid t impl; ({ st with pid := c }, o)
   | some "race" => (st, raceStep t impl)
